@@ -96,13 +96,24 @@ def guards_of(fn, nid):
         t, f = blk['succs']
         if t is None or f is None or t == f:
             continue
-        dt = t in dom.get(b0, ()) or t == b0
-        df = f in dom.get(b0, ()) or f == b0
+        dt = (t in dom.get(b0, ()) or t == b0) and _edge_dominates(fn, d, t, dom)
+        df = (f in dom.get(b0, ()) or f == b0) and _edge_dominates(fn, d, f, dom)
         if dt and not df:
             _expand(fn, blk['cond'], True, d, out)
         elif df and not dt:
             _expand(fn, blk['cond'], False, d, out)
     return out
+
+
+def _edge_dominates(fn, d, s, dom):
+    """The CFG edge d->s is the only way into s (other predecessors of s are loop back edges dominated by s)."""
+    for p in fn.preds().get(s, []):
+        if p == d:
+            continue
+        if s in dom.get(p, ()):  # back edge from inside the region headed by s
+            continue
+        return False
+    return True
 
 
 def _expand(fn, cond, sense, d, out):
